@@ -139,6 +139,12 @@ func msgScenario(c *Ctx, mm msgMatcher, mc msgCase) *Scenario {
 			key := "global:" + globalName(g)
 			if bs := varInitBytes(c, pk, name); bs != nil {
 				sc.Heap[key] = byteSliceSV(sc.Heap, key, bs)
+			} else if ss, ok := varInitStrings(c, pk, name); ok {
+				l := symInt(int64(len(ss)))
+				for i, x := range ss {
+					sc.Heap[fmt.Sprintf("%s[%d]", key, i)] = symStr(x)
+				}
+				sc.Heap[key] = SV{K: "slice", Desc: key, Len: &l, Cap: &l, Known: true}
 			} else if s, ok := varInitString(c, pk, name).(string); ok {
 				l := symInt(int64(len(s)))
 				sc.Heap[key] = SV{K: "str", Known: true, S: s, Len: &l, Desc: fmt.Sprintf("%q", s)}
@@ -1381,4 +1387,22 @@ func abbreviate(b []byte) string {
 		return string(b[:40]) + "..."
 	}
 	return string(b)
+}
+
+// varInitStrings: a package-level []string{...} of constants.
+func varInitStrings(c *Ctx, pkgShort, name string) ([]string, bool) {
+	e, info := findVarInit(c, pkgShort, name)
+	cl, ok := e.(*ast.CompositeLit)
+	if !ok || len(cl.Elts) == 0 {
+		return nil, false
+	}
+	var out []string
+	for _, el := range cl.Elts {
+		tv, ok := info.Types[el]
+		if !ok || tv.Value == nil || tv.Value.Kind() != constant.String {
+			return nil, false
+		}
+		out = append(out, constant.StringVal(tv.Value))
+	}
+	return out, true
 }
